@@ -11,6 +11,7 @@ S3  row scope                           every UPDATE / DELETE / REPLACE reachabl
 F1  facade wiring                       every public method of track / crate / database forwards
                                         to the impl virtual of the same name
 """
+import os
 import re
 
 from .. import program, callgraph, effects, rowmap, rowrules, fieldmodel as fm, valueflow as vf
@@ -80,141 +81,15 @@ def run(tier='quick'):
     supported = c13._supported(prog)
     v2lo = order.index('schema_2_18_0')
     reps = c01.representative_versions(prog, order, 0, v2lo - 1, v2lo, max(order.index(e) for e in supported))
-    for gen, vi in reps:
-        M = fm.FieldModel(prog, cg, eff, assume_schema=vi, enum_order=order)
-        ver = order[vi]
-        rs, asnap = M.r_snap(gen)
-        wu, aupd, fullu = M.w_of(gen, 'update')
-        # everything anybody observes
-        obs = set()
-        rget = {}
-        for x in M.fields + ['filename', 'file_extension']:
-            r, a = M.getter(gen, x)
-            if r is not None:
-                rget[x] = (c01._drop_whole(r), a)
-                obs |= rget[x][0]
-        for x in M.fields:
-            obs |= c01._drop_whole(rs[x])
-        upd_values = {}
-        for w in aupd.writes:
-            upd_values.setdefault((w.table, w.column, w.disc), []).append(w.value)
-        for x in M.fields:
-            dep, allw, aset = M.setter(gen, x)
-            if x not in rget or dep is None:
-                continue
-            R, aget = rget[x]
-            chk.analysed(aget.func)
-            chk.analysed(aset.func)
-            for a in (aget, aset):
-                if a.unknown:
-                    chk.unknown(G1, a.func.qualname, 'constructs outside the modelled subset: %s' % a.unknown[:2])
-            inst = '%s (%s..) %s' % (gen, ver, x)
-            wg = locstr(aget.func.node)
-            ws = locstr(aset.func.node)
-            # G1
-            miss = {k for k in R if not c01._covered(k, dep)}
-            if miss:
-                chk.violation(G1, '%s|%s|getter reads %s' % (gen, x, ','.join(_S(miss))), wg,
-                              '%s: %s() reads %s, which set_%s does not write from its argument (it writes %s)' % (
-                                  inst, x, _S(miss), x, _S(dep)))
-            else:
-                chk.ok(G1, inst, wg, detail={'read': _S(R), 'written': _S(dep)})
-            # G2
-            Rs = c01._drop_whole(rs[x])
-            # redundant encodings: a location only one observer reads is harmless when both the
-            # setter and update() always write it from X together with the others
-            sym = (R - Rs) | (Rs - R)
-            if all(c01._covered(k, dep) and c01._covered(k, wu[x]) for k in (R | Rs)):
-                sym = set()
-            if sym:
-                chk.violation(G2, '%s|%s|getter/snapshot' % (gen, x), wg,
-                              '%s: %s() reads %s but snapshot().%s reads %s: the two observers can disagree' % (
-                                  inst, x, _S(R), x, _S(Rs)))
-            else:
-                sg = _arg_roles(aget.ret)
-                ss = _arg_roles(vf.member(asnap.ret, x))
-                bad = [(fn, i) for (fn, i), l in sg.items() if (fn, i) in ss and ss[(fn, i)] != l]
-                if bad:
-                    fn, i = bad[0]
-                    chk.violation(G2, '%s|%s|argument %d of %s' % (gen, x, i, fn.split('::')[-1]), wg,
-                                  '%s: the getter passes %s as argument %d of %s, snapshot() passes %s' % (
-                                      inst, sorted(sg[(fn, i)]), i, fn.split('::')[-1], sorted(ss[(fn, i)])))
-                else:
-                    chk.ok(G2, inst, wg)
-            # G3
-            W = wu[x]
-            miss = {k for k in R if not c01._covered(k, W)}
-            if miss:
-                chk.violation(G3, '%s|%s|getter reads %s' % (gen, x, ','.join(_S(miss))), wg,
-                              '%s: %s() reads %s, which update() does not write from snapshot.%s (it writes %s)' % (
-                                  inst, x, _S(miss), x, _S(W)))
-            else:
-                chk.ok(G3, inst, wg)
-            # S1
-            only_set = {k for k in dep if any(c01._same_or_inside(k, o) or c01._same_or_inside(o, k) for o in obs)
-                        and not c01._covered(k, W)}
-            only_upd = {k for k in W if any(c01._same_or_inside(k, o) or c01._same_or_inside(o, k) for o in obs)
-                        and not c01._covered(k, dep)}
-            granted = set()
-            probs = []
-            if only_set:
-                probs.append(('setter-only ' + ','.join(_S(only_set)),
-                              'set_%s writes %s, which update() does not write from %s' % (x, _S(only_set), x)))
-            if only_upd - granted:
-                probs.append(('update-only ' + ','.join(_S(only_upd - granted)),
-                              'update() writes %s from %s, which set_%s leaves untouched although observers read it'
-                              % (_S(only_upd - granted), x, x)))
-            # constants for an absent value
-            if not probs:
-                sv = {}
-                for w in aset.writes:
-                    sv.setdefault((w.table, w.column, w.disc), []).append(w.value)
-                for key in sv:
-                    if key not in upd_values:
-                        continue
-                    if not any(c01._same_or_inside((key[0], key[1], key[2], ''), o) or
-                               c01._same_or_inside(o, (key[0], key[1], key[2], '')) for o in obs):
-                        continue
-                    if not any(fm.ins_of(v) for v in sv[key]):
-                        continue
-                    uvals = [v for v in upd_values[key] if x in fm.ins_of(v)]
-                    if not uvals:
-                        continue
-                    cs = set().union(*[_const_alts(v) for v in sv[key] if fm.ins_of(v)])
-                    cu = set().union(*[_const_alts(v) for v in uvals])
-                    if cs != cu and not fm.blob_members(sv[key][0]):
-                        probs.append(('constants %s.%s' % (key[0], key[1]),
-                                      'for an absent / alternative value set_%s writes constant(s) %s into %s.%s '
-                                      'but update() writes %s' % (x, sorted(cs), key[0], key[1], sorted(cu))))
-            if probs:
-                for kk, pr in probs[:2]:
-                    chk.violation(S1, '%s|%s|%s' % (gen, x, kk), ws, '%s: %s' % (inst, pr))
-            else:
-                chk.ok(S1, inst, ws)
-            # S2
-            changed = _changed_locations(aset)
-            clash = []
-            for y in M.fields + ['filename', 'file_extension']:
-                if y == x or y in DERIVED.get(x, ()) or (x == 'relative_path' and y in ('filename', 'file_extension')):
-                    continue
-                Ry = set(c01._drop_whole(rs[y])) if y in rs else set()
-                if y in rget:
-                    Ry |= rget[y][0]
-                hit = {k for k in changed if any(c01._same_or_inside(k, r) or c01._same_or_inside(r, k) for r in Ry)
-                       and not any(c01._same_or_inside(k, r) or c01._same_or_inside(r, k) for r in (R | c01._drop_whole(rs[x])))}
-                # a location both fields legitimately share (written from X by update as well) is
-                # a shared encoding, not interference
-                hit = {k for k in hit if not c01._covered(k, W)}
-                if hit:
-                    clash.append((y, hit))
-            if clash:
-                for y, hit in clash[:3]:
-                    chk.violation(S2, '%s|set_%s|changes %s' % (gen, x, y), ws,
-                                  '%s: set_%s changes %s, which is read for %s: setting one field alters another' % (
-                                      inst, x, _S(hit), y))
-            else:
-                chk.ok(S2, inst, ws, detail={'changed': _S(changed)[:8]})
-
+    global _CTX
+    _CTX = (prog, cg, eff, order)
+    import multiprocessing
+    ctx = multiprocessing.get_context("fork")
+    with ctx.Pool(min(len(reps), os.cpu_count() or 4)) as pool:
+        results = pool.map(_range_worker, reps)
+    for calls in results:
+        for c in calls:
+            getattr(chk, c[0])(*c[1], **c[2])
     # sibling readers (single-field getter path vs snapshot path) filter rows identically
     funcs = c01.v1_storage_functions(prog)
     maps = [m for m in rowrules.expand_sites(prog, cg, eff, funcs)
@@ -226,6 +101,171 @@ def run(tier='quick'):
                       'schema range (%d representative versions): per-field read / write location sets with '
                       'blob-member granularity, converter argument roles, written constants; row-scope and '
                       'facade wiring over the resolved call graph' % len(reps))
+
+
+def _range_worker(args):
+    """Evaluate one schema range in a forked worker; returns the recorded rule outcomes."""
+    gen, vi = args
+    prog, cg, eff, order = _CTX
+    chk = _Recorder()
+    G1, G2, G3, S1, S2 = "G1", "G2", "G3", "S1", "S2"
+    M = fm.FieldModel(prog, cg, eff, assume_schema=vi, enum_order=order)
+    ver = order[vi]
+    rs, asnap = M.r_snap(gen)
+    wu, aupd, fullu = M.w_of(gen, 'update')
+    # everything anybody observes
+    obs = set()
+    rget = {}
+    for x in M.fields + ['filename', 'file_extension']:
+        r, a = M.getter(gen, x)
+        if r is not None:
+            rget[x] = (c01._drop_whole(r), a)
+            obs |= rget[x][0]
+    for x in M.fields:
+        obs |= c01._drop_whole(rs[x])
+    upd_values = {}
+    for w in aupd.writes:
+        upd_values.setdefault((w.table, w.column, w.disc), []).append(w.value)
+    for x in M.fields:
+        dep, allw, aset = M.setter(gen, x)
+        if x not in rget or dep is None:
+            continue
+        R, aget = rget[x]
+        chk.analysed(aget.func)
+        chk.analysed(aset.func)
+        for a in (aget, aset):
+            if a.unknown:
+                chk.unknown(G1, a.func.qualname, 'constructs outside the modelled subset: %s' % a.unknown[:2])
+        inst = '%s (%s..) %s' % (gen, ver, x)
+        wg = locstr(aget.func.node)
+        ws = locstr(aset.func.node)
+        # G1
+        miss = {k for k in R if not c01._covered(k, dep)}
+        if miss:
+            chk.violation(G1, '%s|%s|getter reads %s' % (gen, x, ','.join(_S(miss))), wg,
+                          '%s: %s() reads %s, which set_%s does not write from its argument (it writes %s)' % (
+                              inst, x, _S(miss), x, _S(dep)))
+        else:
+            chk.ok(G1, inst, wg, detail={'read': _S(R), 'written': _S(dep)})
+        # G2
+        Rs = c01._drop_whole(rs[x])
+        # redundant encodings: a location only one observer reads is harmless when both the
+        # setter and update() always write it from X together with the others
+        sym = (R - Rs) | (Rs - R)
+        if all(c01._covered(k, dep) and c01._covered(k, wu[x]) for k in (R | Rs)):
+            sym = set()
+        if sym:
+            chk.violation(G2, '%s|%s|getter/snapshot' % (gen, x), wg,
+                          '%s: %s() reads %s but snapshot().%s reads %s: the two observers can disagree' % (
+                              inst, x, _S(R), x, _S(Rs)))
+        else:
+            sg = _arg_roles(aget.ret)
+            ss = _arg_roles(vf.member(asnap.ret, x))
+            bad = [(fn, i) for (fn, i), l in sg.items() if (fn, i) in ss and ss[(fn, i)] != l]
+            if bad:
+                fn, i = bad[0]
+                chk.violation(G2, '%s|%s|argument %d of %s' % (gen, x, i, fn.split('::')[-1]), wg,
+                              '%s: the getter passes %s as argument %d of %s, snapshot() passes %s' % (
+                                  inst, sorted(sg[(fn, i)]), i, fn.split('::')[-1], sorted(ss[(fn, i)])))
+            else:
+                chk.ok(G2, inst, wg)
+        # G3
+        W = wu[x]
+        miss = {k for k in R if not c01._covered(k, W)}
+        if miss:
+            chk.violation(G3, '%s|%s|getter reads %s' % (gen, x, ','.join(_S(miss))), wg,
+                          '%s: %s() reads %s, which update() does not write from snapshot.%s (it writes %s)' % (
+                              inst, x, _S(miss), x, _S(W)))
+        else:
+            chk.ok(G3, inst, wg)
+        # S1
+        only_set = {k for k in dep if any(c01._same_or_inside(k, o) or c01._same_or_inside(o, k) for o in obs)
+                    and not c01._covered(k, W)}
+        only_upd = {k for k in W if any(c01._same_or_inside(k, o) or c01._same_or_inside(o, k) for o in obs)
+                    and not c01._covered(k, dep)}
+        granted = set()
+        probs = []
+        if only_set:
+            probs.append(('setter-only ' + ','.join(_S(only_set)),
+                          'set_%s writes %s, which update() does not write from %s' % (x, _S(only_set), x)))
+        if only_upd - granted:
+            probs.append(('update-only ' + ','.join(_S(only_upd - granted)),
+                          'update() writes %s from %s, which set_%s leaves untouched although observers read it'
+                          % (_S(only_upd - granted), x, x)))
+        # constants for an absent value
+        if not probs:
+            sv = {}
+            for w in aset.writes:
+                sv.setdefault((w.table, w.column, w.disc), []).append(w.value)
+            for key in sv:
+                if key not in upd_values:
+                    continue
+                if not any(c01._same_or_inside((key[0], key[1], key[2], ''), o) or
+                           c01._same_or_inside(o, (key[0], key[1], key[2], '')) for o in obs):
+                    continue
+                if not any(fm.ins_of(v) for v in sv[key]):
+                    continue
+                uvals = [v for v in upd_values[key] if x in fm.ins_of(v)]
+                if not uvals:
+                    continue
+                cs = set().union(*[_const_alts(v) for v in sv[key] if fm.ins_of(v)])
+                cu = set().union(*[_const_alts(v) for v in uvals])
+                if cs != cu and not fm.blob_members(sv[key][0]):
+                    probs.append(('constants %s.%s' % (key[0], key[1]),
+                                  'for an absent / alternative value set_%s writes constant(s) %s into %s.%s '
+                                  'but update() writes %s' % (x, sorted(cs), key[0], key[1], sorted(cu))))
+        if probs:
+            for kk, pr in probs[:2]:
+                chk.violation(S1, '%s|%s|%s' % (gen, x, kk), ws, '%s: %s' % (inst, pr))
+        else:
+            chk.ok(S1, inst, ws)
+        # S2
+        changed = _changed_locations(aset)
+        clash = []
+        for y in M.fields + ['filename', 'file_extension']:
+            if y == x or y in DERIVED.get(x, ()) or (x == 'relative_path' and y in ('filename', 'file_extension')):
+                continue
+            Ry = set(c01._drop_whole(rs[y])) if y in rs else set()
+            if y in rget:
+                Ry |= rget[y][0]
+            hit = {k for k in changed if any(c01._same_or_inside(k, r) or c01._same_or_inside(r, k) for r in Ry)
+                   and not any(c01._same_or_inside(k, r) or c01._same_or_inside(r, k) for r in (R | c01._drop_whole(rs[x])))}
+            # a location both fields legitimately share (written from X by update as well) is
+            # a shared encoding, not interference
+            hit = {k for k in hit if not c01._covered(k, W)}
+            if hit:
+                clash.append((y, hit))
+        if clash:
+            for y, hit in clash[:3]:
+                chk.violation(S2, '%s|set_%s|changes %s' % (gen, x, y), ws,
+                              '%s: set_%s changes %s, which is read for %s: setting one field alters another' % (
+                                  inst, x, _S(hit), y))
+        else:
+            chk.ok(S2, inst, ws, detail={'changed': _S(changed)[:8]})
+
+    return chk.calls
+
+
+class _Recorder:
+    """Collects rule outcomes in a worker process (replayed on the real Check in the parent)."""
+
+    def __init__(self):
+        self.calls = []
+
+    def ok(self, *a, **k):
+        self.calls.append(("ok", a, k))
+
+    def violation(self, *a, **k):
+        self.calls.append(("violation", a, k))
+
+    def unknown(self, *a, **k):
+        self.calls.append(("unknown", a, k))
+
+    def analysed(self, f):
+        self.calls.append(("analysed", (f if isinstance(f, str) else f.key,), {}))
+
+
+_CTX = None
 
 
 def _const_alts(v):
